@@ -20,7 +20,7 @@ ASSUMPTIONS = ["fshift is linear in its signal argument (monitored on random com
                "for even n the Nyquist bin of a real signal cannot carry a fractional delay: additivity there is asserted only for "
                "integer shifts or Nyquist-free signals"]
 REQUIRED = {"contract:fshift_shape_dtype": 500, "contract:fshift_input_untouched": 500, "roll_checked": 200,
-            "additivity_checked": 50, "analytic_checked": 50, "corrmax_checked": 50, "pertrace_checked": 50, "shift_vector_reuse_checked": 30, "nonfinite_inputs": 50,
+            "additivity_checked": 50, "analytic_checked": 50, "corrmax_checked": 50, "pertrace_checked": 50, "shift_vector_reuse_checked": 30, "corrmax_large_delays": 20, "nonfinite_inputs": 50,
             "shift_waveform_checked": 3, "parabolic_checked": 50}
 CASE_TIMEOUT = 200.0
 
@@ -323,6 +323,22 @@ def run_case(case):
                         nt += 1
                     except Exception as e:
                         res.exception("corrmax:exception", e, f"n={n} width={a} s={s}")
+                # a LARGE delay (a quarter to 0.4 of the window): a narrow wavelet near one end, its copy near the other, both fully inside the window
+                if a <= 3 and n >= 60:
+                    for sgn in (1, -1):
+                        s = sgn * float(rng.uniform(0.25, 0.4)) * n
+                        c0 = 6 * a + 1 if sgn > 0 else n - 6 * a - 2
+                        if not (6 * a <= c0 + s <= n - 1 - 6 * a):
+                            continue
+                        wl = ricker(n, a, c=c0) * float(10 ** rng.uniform(-6, 1))
+                        try:
+                            w2 = fshift(wl, s)
+                            r, sc = W.wave_shift_corrmax(wl, w2)
+                            res.check(abs(sc - s) <= 0.05 and np.max(np.abs(r - wl)) / np.max(np.abs(wl)) <= 0.02, "corrmax:large-delay",
+                                      f"n={n} width={a} wavelet at {c0}: applied shift {s:.3f} estimated {sc:.3f}, re-aligned copy off by "
+                                      f"{np.max(np.abs(r - wl)) / np.max(np.abs(wl)):.3%} of peak", counter="corrmax_large_delays")
+                        except Exception as e:
+                            res.exception("corrmax:exception", e, f"n={n} width={a} s={s}")
         res.sig = f"corrmax-{case['k']}"
     elif cls == "shift_waveform":
         # cluster of shifted copies of one multi-channel template: returned shifts undo the applied ones
